@@ -44,7 +44,7 @@ def smooth(spec):
         return min(spec["rx"], spec["ry"]) ** 2 / max(spec["rx"], spec["ry"]) >= 10
     if spec["kind"] == "circle":
         return spec["r"] >= 10
-    return spec["kind"] == "rect"
+    return spec["kind"] in ("rect", "flat")
 
 
 def crosses(fa, fb):
@@ -156,6 +156,15 @@ def search(ctx, budget):
     for i in range(n):
         simple = i % 2 == 0
         a, b = cc.rand_pair(rng, i, simple=simple)
+        if i % 5 == 3:
+            # one operand is a flattened shape (a polygon whose edges carry the back-pointer to the curve they were cut from):
+            # the inputs are this polygon's edges, not the curves it once was
+            big = {"kind": "circle", "r": float(rng.randint(50, 110)), "o": (float(rng.randint(-40, 40)), float(rng.randint(-40, 40)))}
+            other = {"kind": "rect", "w": float(rng.randint(60, 200)), "h": float(rng.randint(40, 120)),
+                     "o": (big["o"][0] + big["r"] * rng.uniform(0.6, 1.1), big["o"][1] + float(rng.randint(-30, 30)))}
+            a, b = {"kind": "flat", "of": big, "d": rng.choice([50, 50, 30])}, other
+            if rng.random() < 0.4:
+                a, b = b, a
         inp = {"a": a, "b": b, "seed": 0}
         if repr((a, b)) not in seen:
             seen.add(repr((a, b)))
